@@ -225,6 +225,9 @@ class Initiator(DataExchangeProtocol):
             res = self.send_dep_req_recv_dep_res(req, self.rwt, timeout)
             if res.pfb.fmt == DEP_RES.TimeoutExtension:
                 for i in range(3):
+                    if len(res.data) == 0:
+                        error = "NFC-DEP RTOX PDU without RTOX value"
+                        raise nfc.clf.ProtocolError(error)
                     req = RTOX(res.data[0], self.did, self.nad)
                     rwt = res.data[0] * self.rwt
                     log.warning("target requested %.3f sec more time", rwt)
@@ -254,6 +257,9 @@ class Initiator(DataExchangeProtocol):
             res = self.send_dep_req_recv_dep_res(req, self.rwt, timeout)
             if res.pfb.fmt == DEP_RES.TimeoutExtension:
                 for i in range(3):
+                    if len(res.data) == 0:
+                        error = "NFC-DEP RTOX PDU without RTOX value"
+                        raise nfc.clf.ProtocolError(error)
                     req = RTOX(res.data[0], self.did, self.nad)
                     rwt = res.data[0] * self.rwt
                     log.warning("target requested %.3f sec more time", rwt)
